@@ -80,14 +80,15 @@ PROBE_EDITS = [
     ('@page{margin:0}', lambda s: setattr(s.cssRules[0], 'selectorText', ':nosuch'), True),
     ('@namespace p "u";p|a{top:0}', lambda s: s.namespaces.__delitem__('p'), True),
 ]
-PROBE_VALIDATE = [('color', 'red'), ('color', '1px'), ('width', '-1px'), ('-x-probe', 'on'), ('-x-probe', 'off'), ('nosuch', '1'), ('src', 'url(a)'), ('font-family', 'a b')]
+PROBE_VALIDATE = [('color', 'red'), ('color', '1px'), ('width', '-1px'), ('-x-probe', 'on'), ('-x-probe', 'off'), ('nosuch', '1'), ('src', 'url(a)'), ('font-family', 'a b'),
+                  ('opacity', '0.5'), ('text-shadow', 'none'), ('resize', 'both'), ('box-sizing', 'border-box'), ('overflow-x', 'hidden'), ('color', 'rgba(1,2,3,0.5)')]
 
 
 def fetcher_ok(url):
     return None, {'x.css': 'x{top:0}', 'y.css': '@import "x.css";y{left:0}', 'z.css': 'z{right:0}'}.get(url.rsplit('/', 1)[-1], '')
 
 
-def battery(c):
+def battery(c, variant=0):
     """returns a JSON-able list; canonical explicit state first (explicit settings are inputs, not hidden state)"""
     import logging
 
@@ -123,6 +124,22 @@ def battery(c):
         res.append([c.profile.validate('-x-probe', 'on'), c.css.Property('color', 'red').valid])
         return res
 
+    # explicitly restricted default profiles (an input), explicitly reset afterwards
+    def restricted_probe():
+        res = []
+        c.profile.defaultProfiles = c.profile.CSS_LEVEL_2
+        try:
+            for n, v in PROBE_VALIDATE:
+                res.append([n, v, list(c.profile.validateWithProfile(n, v))[:2], c.css.Property(n, v).valid])
+            res.append(c.parseString('a{opacity:0.5;color:red;resize:both}').cssRules[0].style.valid)
+        finally:
+            c.profile.defaultProfiles = None
+        res.append([list(c.profile.validateWithProfile('opacity', '0.5'))[:2], c.css.Property('opacity', '0.5').valid])
+        return res
+
+    if variant == 1:
+        # the other order: nothing has been validated, added or removed before the restricted probe
+        run('restricted-profiles-first', restricted_probe)
     run('profile', profile_probe)
     for i, t in enumerate(PROBE_TEXTS):
         run('parse%d' % i, lambda t=t: sheet_result(c.parseString(t)))
@@ -147,6 +164,7 @@ def battery(c):
         run('edit%d' % i, one)
     core.canonical_state(c, raising=False)
     run('profile-again', profile_probe)
+    run('restricted-profiles', restricted_probe)
     run('prefs', lambda: sorted((k, repr(v)) for k, v in vars(c.ser.prefs).items()))
     run('minified', lambda: _with_prefs(c))
     core.canonical_state(c)
@@ -161,9 +179,9 @@ def _with_prefs(c):
         c.ser.prefs.useDefaults()
 
 
-def fresh_battery():
+def fresh_battery(variant=0):
     """the battery in a fresh interpreter (same tree): the reference"""
-    code = 'import sys, json; sys.path.insert(0, %r); from engine import core; from checks import c12; c, _ = core.import_repo(); print("BATTERY" + json.dumps(c12.battery(c)))' % os.path.dirname(os.path.dirname(os.path.abspath(__file__)))
+    code = 'import sys, json; sys.path.insert(0, %r); from engine import core; from checks import c12; c, _ = core.import_repo(); print("BATTERY" + json.dumps(c12.battery(c, %d)))' % (os.path.dirname(os.path.dirname(os.path.abspath(__file__))), variant)
     r = subprocess.run([sys.executable, '-B', '-c', code], capture_output=True, text=True, timeout=120, env=dict(os.environ))
     for line in r.stdout.splitlines():
         if line.startswith('BATTERY'):
@@ -208,7 +226,7 @@ def make_fetcher(kind, fail_at):
 FETCH_KINDS = ['exception', 'oserror', 'boom', 'garbage', 'badbytes', 'badtuple']
 OPS = ['parse-malformed', 'parse-malformed', 'parse-bytes-bad', 'parse-bytes-bad-enc', 'parse-fetch-fault', 'parse-fetch-fault', 'parsefile-missing', 'parseurl-fault', 'parser-raising',
        'parser-raising', 'parsestyle-bad', 'parsestyle-bytes', 'csscombine-fault', 'csscombine-ok', 'resolve-fault', 'replaceurls-fault', 'dom-reject', 'dom-reject', 'direct-objects',
-       'serialise-weird', 'prefs-roundtrip', 'serializer-roundtrip', 'profile-roundtrip', 'validate-some', 'reuse-parser', 'reuse-parser', 'flip-mode', 'geturls', 'parse-ok', 'log-level']  # fmt: skip
+       'dom-mutator', 'dom-mutator', 'dom-mutator', 'restricted-profiles-roundtrip', 'serialise-weird', 'prefs-roundtrip', 'serializer-roundtrip', 'profile-roundtrip', 'validate-some', 'reuse-parser', 'reuse-parser', 'flip-mode', 'geturls', 'parse-ok', 'log-level']  # fmt: skip
 
 
 class History:
@@ -345,6 +363,33 @@ class History:
                     c.log.raiseExceptions = mode
 
             out = self.sentinel_call(kind, fn, parse_family=False)
+        elif kind == 'dom-mutator':
+            from checks import c11
+
+            if not hasattr(self, '_muts'):
+                self._muts = c11.mutators(c)
+            label, locate, call, inputs, extra = r.choice(self._muts)
+            arg = r.choice(inputs + extra)[0]
+            mode = c.log.raiseExceptions
+
+            def fn():
+                s = c.parseString(c11.BASE)
+                c.log.raiseExceptions = r.random() < 0.5
+                try:
+                    loc = locate(s)
+                    if loc and loc[1] is not None:
+                        call(loc[1], arg)
+                        s.cssText
+                finally:
+                    c.log.raiseExceptions = mode
+
+            out = self.sentinel_call(kind, fn, parse_family=False)
+        elif kind == 'restricted-profiles-roundtrip':
+            c.profile.defaultProfiles = r.choice([c.profile.CSS_LEVEL_2, [c.profile.CSS_LEVEL_2, c.profile.CSS3_COLOR]])
+            for n, v in r.sample(PROBE_VALIDATE, 4):
+                c.profile.validateWithProfile(n, v)
+                c.css.Property(n, v).valid
+            c.profile.defaultProfiles = None
         elif kind == 'direct-objects':
             t = r.choice(MALFORMED)
 
@@ -443,11 +488,13 @@ class History:
                 ctx.count('diagnostic.tokenizer-pushed-nonempty')
         except Exception:
             pass
-        got = battery(c)
+        variant = len(self.ops) % 2
+        ref = self.ref[variant]
+        got = battery(c, variant)
         ctx.count('oracle.battery')
         ctx.count('battery.probes', len(got))
-        if got != self.ref:
-            diffs = [(a, b) for a, b in zip(self.ref, got) if a != b][:3]
+        if got != ref:
+            diffs = [(a, b) for a, b in zip(ref, got) if a != b][:3]
             ctx.violation('battery', {'kind': 'history', 'ops': list(self.ops)}, {'probes_differing': [d[0][0] for d in diffs], 'fresh': str(diffs[0][0])[:400] if diffs else None,
                                                                                  'after_history': str(diffs[0][1])[:400] if diffs else None})  # fmt: skip
             return False
@@ -460,11 +507,11 @@ def run_worker(ctx):
     import cssutils.script  # noqa: F401  (csscombine)
 
     quick = ctx.tier == 'quick'
-    reference = fresh_battery()
+    reference = {0: fresh_battery(0), 1: fresh_battery(1)}
     # the battery is deterministic in a fresh process, and in this one before any history
     again = battery(c)
-    if again != reference:
-        diffs = [(a, b) for a, b in zip(reference, again) if a != b][:2]
+    if again != reference[0]:
+        diffs = [(a, b) for a, b in zip(reference[0], again) if a != b][:2]
         ctx.violation('battery', {'kind': 'history', 'ops': []}, {'what': 'battery differs from the fresh process without any history', 'first': str(diffs)[:600]})
     n = 1600 if quick else 40000
     for i in range(n):
@@ -487,7 +534,7 @@ def run_worker(ctx):
         if ok:
             h.check_battery()
         core.canonical_state(c)
-    ctx.extra['battery_probes'] = len(reference)
+    ctx.extra['battery_probes'] = len(reference[0])
     ctx.sample({'history': [['parse-bytes-bad', 1], ['parser-raising', 2], ['flip-mode', 0], ['parse-fetch-fault', 3]], 'then': 'battery == fresh process'})
 
 
@@ -497,7 +544,7 @@ def replay(ctx, case):
 
     import cssutils.script  # noqa: F401
 
-    reference = fresh_battery()
+    reference = {0: fresh_battery(0), 1: fresh_battery(1)}
     for start_mode in (True, False):
         core.canonical_state(c, raising=start_mode)
         h = History(ctx, c, random.Random(0), reference)
